@@ -20,6 +20,11 @@
 # Leg c08.anntype: annotation types (check 18): a file declares a class (`---@class T1`) another one uses (`---@type T1`) or
 # declares again; the declaring file goes away in a notification naming deletions only (watched Delete; didClose of a
 # document outside the workspace): the project-wide type table must be rebuilt (seeded change C08-5).
+# Leg c08.samepath: ONE watched-files notification naming the same path several times (file replaced by remove + create,
+# short-lived file, ...; seeded changes C08-6 / C18-6). The model takes the notification event by event; the spec's
+# conformant notifications name every file once, so the demanded observable is computed in this file (samepath_proj: every
+# view = the fresh start's view). Class `changed_unknown` (Deleted + Changed of a re-created file) deviates on the deployed
+# code: decided on implementation = model only, recorded by the exploratory leg c08.samepathraw.
 import vlib
 from vlib import Leg
 
@@ -460,6 +465,130 @@ def gen_batch(rng, tier):
     return out
 
 
+def samepath_items(rng, ed, g, ann=0.14, p_misreport=0.0):
+    """2..3 watched items for ONE path, performed on the disk in this order (the harness writes / removes the file item by
+    item and then sends ONE notification): what a non-coalescing watcher reports for a file replaced by remove + create
+    (`D C`: there afterwards), for a short-lived file (`C D`: gone), create + write, write + remove, ... With probability
+    p_misreport a re-creation after a Deleted item is reported as Changed (`D M`: seen with watchers that stat the path when
+    they flush their queue)."""
+    items = []
+    for _ in range(rng.choice([2, 2, 2, 3])):
+        if g in ed.disk:
+            if rng.random() < 0.5:
+                items.append("D" + g); del ed.disk[g]
+            else:
+                c = edit_content(rng, ed.disk[g], ann) if rng.random() < 0.6 else rand_content(rng, ann=ann)
+                items.append("M%s=%s" % (g, c)); ed.disk[g] = c
+        else:
+            c = rand_content(rng, ann=ann)
+            k = "M" if items and items[-1][0] == "D" and rng.random() < p_misreport else "C"
+            items.append("%s%s=%s" % (k, g, c)); ed.disk[g] = c
+    return items
+
+
+def gen_samepath(rng, tier, only_changed=False):
+    """ONE watched-files notification naming the SAME path more than once (seeded changes C08-6 / C18-6: the batch was
+    filtered / de-duplicated per path). The server handles a batch event by event (the model too: Model/Events.v
+    `handle_events`), so the state afterwards must be that of the LAST event per path. Spec/FreshStart.v `conf_action` lets a
+    conformant notification name every file once: these histories are outside the domain of C08_full_proved; the leg
+    compares implementation and model as usual and, as the demanded observable, every step's view with the view of a fresh
+    start on the files as they are then (`samepath_proj`).
+    only_changed: only histories with a `D M` pair (class `changed_unknown`), for the exploratory leg c08.samepathraw."""
+    n = {"quick": 420, "thorough": 7000, "search": 300}[tier]
+    if only_changed:
+        n = n // 7
+    out = ["A a=l,b=c wDa+Ca=s", "A a=l,b=ra wDa+Ca=u1", "A b=ra wCa=s+Da", "A a=d1,b=u1 wDa+Ca=d1", "A a=k1,b=t1 wDa+Ca=k1",
+           "A a=f1,b=g wDa+Ca=f2", "A b=u1 wCa=d1+Da", "A a=l wMa=s+Da+Ca=u1", "A a=d1,b=u1ra wDa+Ca=c+Ma=d1s"]
+    for k in range(n):
+        files = list(INSIDE)
+        rng.shuffle(files)
+        ann = 0.0 if rng.random() < 0.3 else 0.14
+        p_mis = 0.0
+        if only_changed or rng.random() < 0.1:
+            # `D M`: the Changed event names a file the server has just forgotten; no annotation statements then (see gen_history)
+            ann, p_mis = 0.0, 0.7
+        disk = {f: rand_content(rng, ann=ann) for f in files[:rng.choice([1, 2, 3])]}
+        if rng.random() < 0.7:
+            # another file depends on the replaced one: requires it, reads its global, calls its function, uses its class
+            j = rng.choice("12")
+            dep, use = rng.choice([("d" + j, "u" + j), ("f" + j, "g"), ("k" + j, "t" + j), ("c", "r" + files[0])])
+            if rng.random() < 0.7:
+                disk[files[0]] = rng.choice(["", "c", "l"]) + dep
+            disk[files[1]] = rng.choice(["", "c", "r" + files[0]]) + use
+        ed = Ed(disk)
+        evs = []
+        for _ in range(rng.choice([1, 1, 2, 3])):
+            g = files[0] if rng.random() < 0.7 else rng.choice(INSIDE)
+            items = samepath_items(rng, ed, g, ann, p_mis)
+            # sometimes other files in the same notification, before / between / after
+            for h in rng.sample([x for x in INSIDE if x != g], rng.choice([0, 0, 0, 1, 2])):
+                if h in ed.disk and h not in ed.buf:
+                    if rng.random() < 0.5:
+                        it = "D" + h; del ed.disk[h]
+                    else:
+                        c = edit_content(rng, ed.disk[h], ann); it = "M%s=%s" % (h, c); ed.disk[h] = c
+                else:
+                    if h in ed.disk:
+                        continue
+                    c = rand_content(rng, ann=ann); it = "C%s=%s" % (h, c); ed.disk[h] = c
+                items.insert(rng.randrange(len(items) + 1), it)
+            evs.append("w" + "+".join(items))
+            r = rng.random()
+            if r < 0.25:
+                # an ordinary single event afterwards (the wrong state of the seeded changes lasts until one names the path)
+                t = rng.choice([x for x in INSIDE if x != g])
+                if t in ed.disk:
+                    evs.append("wD" + t); del ed.disk[t]
+                else:
+                    c = rand_content(rng, ann=ann); evs.append("wC%s=%s" % (t, c)); ed.disk[t] = c
+            elif r < 0.4 and g in ed.disk:
+                c = edit_content(rng, ed.disk[g], ann)
+                evs += ["o" + g, "c%s=%s" % (g, c), "s" + g, "x" + g]; ed.disk[g] = c
+        init = ",".join("%s=%s" % (a, c) for a, c in sorted(disk.items())) or "-"
+        out.append(case_of("A", init, evs))
+    if only_changed:
+        out = ["A a=l,b=ra wDa+Ma=c", "A a=d1,b=u1 wDa+Ma=d1"] + [c for c in out if changed_unknown(c)]
+    return out
+
+
+def changed_unknown(case):
+    """class predicate (exact, on the case text): some watched notification says Changed of a path that is not a file of the
+    project when the server comes to that event - here: deleted by an earlier event of the same notification and re-created
+    on disk. HandleFileEventChanges gives such a file a first pass but does not enter it into allFilesMap / the file-name
+    index (only Created does), so it takes no part in the third pass and no require finds it: the view differs from a
+    fresh start's. The same happens for a single Changed event naming a file the server was never told about (raw
+    histories `k<f>=..;WM<f>`); a watcher that reports Deleted + Changed for a replaced file is what makes it reachable
+    without an event being lost."""
+    mode, init, evs = case.split(" ")[:3]
+    disk = set(it[0] for it in init.split(",")) if init != "-" else set()
+    for e in evs.split(";") if evs != "-" else []:
+        if e[0] == "w":
+            for it in e[1:].split("+"):
+                if it[0] == "D":
+                    disk.discard(it[1])
+                elif it[0] == "M" and it[1] not in disk:
+                    return True
+                else:
+                    disk.add(it[1])
+        elif e[0] == "s":
+            disk.add(e[1])
+    return False
+
+
+def samepath_proj(obs):
+    """the demanded observable of leg c08.samepath, read off an implementation / model answer: "=" when every step that
+    carries a fresh-start view (no unsaved edits) shows the same diagnostics per file (up to order) as the fresh start"""
+    if "~" not in obs:
+        return obs                       # CRASH / TIMEOUT / ERR words
+    canon = lambda v: sorted((f.split(":")[0], sorted(f.split(":")[1].split(","))) for f in v.split(";")) if v != "-" else []
+    for k, st in enumerate(obs.split("|")):
+        if "~" in st:
+            v, f = st.split("~", 1)
+            if canon(v) != canon(f):
+                return "step %d: view %s, fresh start %s" % (k, v, f)
+    return "="
+
+
 def gen_raw(rng, tier):
     """non-conformant stream: raw notifications and silent disk changes mixed in (only impl == model is checked)"""
     n = {"quick": 700, "thorough": 12000, "search": 400}[tier]
@@ -515,6 +644,11 @@ def shrink(case):
         for j in range(len(s)):
             yield case_of(mode, ",".join(il[:i] + ["%s=%s" % (f, unstmts(s[:j] + s[j + 1:]))] + il[i + 1:]), el)
     for i, e in enumerate(el):
+        if e[0] in "wW" and "+" in e:
+            its = e[1:].split("+")
+            for j in range(len(its)):
+                yield case_of(mode, init, el[:i] + [e[0] + "+".join(its[:j] + its[j + 1:])] + el[i + 1:])
+    for i, e in enumerate(el):
         if "=" in e and "+" not in e:
             head, c = e.split("=")
             s = stmts(c)
@@ -537,6 +671,14 @@ LEGS = [
     Leg("c08.opentext", gen_opentext, shrink=shrink, per_case_s=5.0,
         nontrivial=lambda c: any(e[0] == "o" and "=" in e for e in c.split(" ")[2].split(";"))),
     Leg("c08.annraw", gen_annraw, nontrivial=nontrivial, per_case_s=5.0, deciding=False),
+    # one notification naming the same path several times: outside the conformant histories of the theorem (a conformant
+    # notification names every file once), so the demanded observable is computed here: every view = the fresh start's
+    # (for the class `changed_unknown` - a Changed event for a path the server has just been told is deleted - only
+    # implementation = model is decided; the exploratory leg c08.samepathraw records how those views differ from a fresh start)
+    Leg("c08.samepath", gen_samepath, shrink=shrink, per_case_s=5.0, spec_proj=samepath_proj,
+        py_spec=lambda c: "-" if changed_unknown(c) else "=", nontrivial=lambda c: True),
+    Leg("c08.samepathraw", lambda rng, tier: gen_samepath(rng, tier, only_changed=True), per_case_s=5.0, py_spec=lambda c: "=",
+        spec_proj=samepath_proj, nontrivial=lambda c: True, deciding=False),
 ]
 
 TRUSTED = vlib.TRUSTED_COMMON + [
@@ -548,6 +690,10 @@ TRUSTED = vlib.TRUSTED_COMMON + [
     "the mutual order of the duplicate-type warnings of one file follows a Go map: the harness sorts that run by line); "
     "a diagnostic is compared as type, start line and a hash of (start column, end line, end column, message text): the model's tag "
     "rendered by ocaml/c08_run.ml against what the real server published",
+    "leg c08.samepath (one watched notification naming a path several times): outside the conformant histories of C08_full_proved "
+    "(Spec/FreshStart.v conf_action: every file once); implementation = model is decided as everywhere, and view = fresh-start view is "
+    "evaluated by checks/c08.py on the implementation's own answer (no theorem); a Changed event for a path the server does not know "
+    "(class changed_unknown, e.g. Deleted + Changed of a re-created file) leaves the file out of the project: recorded, exploratory leg c08.samepathraw",
     "modelled, tied by correspondence: diagnostics_manager.go, the five handlers of textdocument_file_request.go (didOpen "
     "compares the carried text with the file - the model's disk - and analyses it when they differ: legs c08.opentext, c08.raw), "
     "HandleFileEventChanges, the unchanged-content shortcut, RemoveFile / FileIndexInfo.RemoveOneFile, ReanalyseReferInfo trigger, "
